@@ -83,7 +83,15 @@ def post_final_or_waiting(w: World, snap: dict[str, Any], info: dict[str, Any]) 
     PAUSED is waiting for a resume by definition; what its completion messages did meanwhile (they
     are refused while the pause lasts and may exhaust their attempts, DESIGN O10) is not judged."""
     if snap["workflow"] == "PAUSED":
-        return None
+        st = {k: v["status"] for k, v in snap["stages"].items()}
+        if any(v == "PAUSED" for v in st.values()):
+            return None  # a parked stage: unpause has something to resume
+        if all(v in COMPLETE or v == "NOT_STARTED" for v in st.values()) and not any(v == "RUNNING" for v in st.values()):
+            return None  # nothing was in flight any more when the pause hit (O10)
+        if snap["queue"] != 0:
+            return None  # messages still waiting for their delivery time / attempts
+        # paused, nothing parked, a stage still RUNNING and nothing queued: no resume can ever continue this run
+        return ("paused_with_nothing_parked/%s" % state_sig(summarize(snap)), {"stages": st})
     q = quiescent_ok(snap)
     if q is not None:
         return ("not_quiescent/%s" % state_sig(summarize(snap)), {"why": q})
